@@ -26,6 +26,8 @@ OL_CLASS_MEMBER_KEY: _ol_reserved_name = "__ol_key_{}"
 OL_CLASS_MEMBER_VALUE: _ol_reserved_name = "__ol_value_{}"
 OL_IMPORT_TMP: _ol_reserved_name = "__ol_mod_{}"
 OL_CLASS_HOOK: _ol_reserved_name = "__ol_hook_{}"
+OL_CLASS_BASES: _ol_reserved_name = "__ol_bases_{}"
+OL_CLASS_KEYWORDS: _ol_reserved_name = "__ol_kwds_{}"
 
 
 def ol_name(name: _ol_reserved_name):
